@@ -126,8 +126,22 @@ fn run_onehop(b: &[u8], sum: &mut Summary) -> Option<String> {
         Ok(p) => (format!("(0,{})", coq_path(&p)), match p.try_encode_to_vec() { Ok(x) => cb(0, &x), Err(_) => cb(1, &[]) }),
         Err((e, _)) => (format!("({},{})", rev_code(&Err(e)), EMPTY_PATH), cb(NOT_RUN, &[])),
     }, (format!("({},{})", PANIC, EMPTY_PATH), cb(PANIC, &[])));
+    // set_second_hop on the view and on the model with the same arguments:
+    // (advanced, view bytes afterwards, encoding of the model afterwards)
+    let key: [u8; 16] = core::array::from_fn(|i| (i as u8).wrapping_mul(29).wrapping_add(3));
+    let ingress_if = 0x1234u16;
+    let mut ssh = vec![];
+    for advanced in [false, true] {
+        let mut bv = b.to_vec();
+        let vb = guard!({ let (v, _) = OneHopPathView::try_from_mut_slice(&mut bv).unwrap(); v.set_second_hop(ingress_if, key, advanced); 0u64 }, PANIC);
+        let mut m3 = m.clone();
+        let mb = guard!({ m3.set_second_hop(ingress_if, key, advanced); m3.try_encode_to_vec().unwrap_or_default() }, vec![]);
+        if vb == 0 && bv != mb { sum.count("onehop_set_second_hop_view_model_differ"); }
+        ssh.push(format!("({},{},{})", advanced as u64, coq_bytes(&bv), coq_bytes(&mb)));
+    }
     if pan { sum.count("panic"); }
-    Some(format!("VOne (mkVO {} {} {} {} ({},{}) {} {} {})", coq_bytes(b), cb(rev, &b1), expv, coq_onehop(&m), c, coq_onehop(&m2), menc, conv, convenc))
+    Some(format!("VOne (mkVO {} {} {} {} ({},{}) {} {} {} {} {})", coq_bytes(b), cb(rev, &b1), expv, coq_onehop(&m), c, coq_onehop(&m2), menc, conv, convenc,
+        coq_bytes(&key), coq_list(ssh)))
 }
 
 fn main() {
